@@ -627,3 +627,9 @@ Lemma usable_implies_announced_partial :
   forall publish_ok, publish_ok = true ->
   fst (register_outcome publish_ok) = true -> snd (register_outcome publish_ok) = true.
 Proof. intros ? -> _. reflexivity. Qed.
+
+(* ---- shutdown ---- *)
+Lemma shutdown_clears_detector cancelled st h t :
+  drun st (h ++ map (fun m => (t, EMsg m)) (cleanup cancelled)) = [] /\
+  forall k, tracked k (drun st (h ++ map (fun m => (t, EMsg m)) (cleanup cancelled))) = false.
+Proof. rewrite drun_app. cbn. split; reflexivity. Qed.
